@@ -1,35 +1,105 @@
 #!/usr/bin/env python3
-"""run_seeded.py [filter]: apply each /verif/seeded/*/patch.diff to /repo, run the check of its
-property (and every other registered check with --all), undo the patch.  Writes seeded/RESULTS.json."""
-import json, os, subprocess, sys, glob
+"""run_seeded.py [-jN] [--all] [--in-repo] [filter...]: run the registered checks against each
+/verif/seeded/*/patch.diff.
+
+Default: every seed gets its own scratch copy of /repo's working tree under /tmp (tracked files only),
+the patch is applied there, the checks run against the copy (VERIF_REPO / VERIF_WORK: extraction, Verus
+and the bounded harness all use the copy, with their own cargo target directory seeded from
+/verif/.build), and the copy is removed.  /repo is never touched, so seeds run in parallel.
+--in-repo: the procedure of the brief (git -C /repo apply; ./check; git -C /repo checkout -- .), serial.
+Writes seeded/RESULTS.json (development aid, not evidence)."""
+import json, os, subprocess, sys, glob, shutil, tempfile
+import concurrent.futures as cf
 ROOT = '/verif'
-flt = [a for a in sys.argv[1:] if not a.startswith('--')]
-allc = '--all' in sys.argv
+args = sys.argv[1:]
+jobs = 4
+for a in list(args):
+    if a.startswith('-j'):
+        jobs = int(a[2:]); args.remove(a)
+allc = '--all' in args
+inrepo = '--in-repo' in args
+flt = [a for a in args if not a.startswith('--')]
 man = json.load(open(os.path.join(ROOT, 'MANIFEST.json')))
 props = [c['property_id'] for c in man['checks']]
 resf = os.path.join(ROOT, 'seeded', 'RESULTS.json')
 results = json.load(open(resf)) if os.path.exists(resf) else {}
-assert subprocess.run(['git', '-C', '/repo', 'status', '--porcelain', '--untracked-files=no'], capture_output=True, text=True).stdout.strip() == '', '/repo is dirty'
-for d in sorted(glob.glob(os.path.join(ROOT, 'seeded', '*_*'))):
-    name = os.path.basename(d)
-    if not os.path.isdir(d) or (flt and not any(f in name for f in flt)):
-        continue
-    meta = json.load(open(os.path.join(d, 'meta.json')))
+
+
+def checks_for(prop):
+    return ([prop] if prop in props else []) + ([q for q in props if q != prop] if allc else [])
+
+
+def run_checks(name, meta, env):
     prop = meta['property']
-    r = subprocess.run(['git', '-C', '/repo', 'apply', os.path.join(d, 'patch.diff')], capture_output=True, text=True)
-    if r.returncode != 0:
-        print('%s: patch does not apply: %s' % (name, r.stderr.strip()[:200]))
-        results[name] = {'error': 'patch does not apply'}
-        continue
+    out = {}
+    for p in checks_for(prop):
+        c = subprocess.run([os.path.join(ROOT, 'check'), p], capture_output=True, text=True, env=env)
+        viol = [l for l in c.stdout.split('\n') if l.startswith('VIOLATION') or l.startswith('UNDECIDED') or l.startswith('obligation failed')]
+        out[p] = {'exit': c.returncode, 'lines': viol[:6]}
+    return {'property': prop, 'claimed': prop in props, 'checks': out, 'summary': meta.get('summary')}
+
+
+def one_scratch(d):
+    name = os.path.basename(d)
+    meta = json.load(open(os.path.join(d, 'meta.json')))
+    base = tempfile.mkdtemp(prefix='pv-seed-%s-' % name)
+    repo = os.path.join(base, 'repo')
     try:
-        out = {}
-        for p in ([prop] if prop in props else []) + ([q for q in props if q != prop] if allc else []):
-            c = subprocess.run([os.path.join(ROOT, 'check'), p], capture_output=True, text=True, env=dict(os.environ, VERIF_NO_EVIDENCE='1'))
-            viol = [l for l in c.stdout.split('\n') if l.startswith('VIOLATION') or l.startswith('UNDECIDED') or l.startswith('obligation failed')]
-            out[p] = {'exit': c.returncode, 'lines': viol[:6]}
-        results[name] = {'property': prop, 'claimed': prop in props, 'checks': out, 'summary': meta.get('summary')}
-        det = [p for p, v in out.items() if v['exit'] == 1]
-        print('%-10s %-4s detected_by=%s %s' % (name, prop, det or '-', '' if prop in props else '(property not claimed)'))
+        os.makedirs(repo)
+        files = subprocess.run(['git', '-C', '/repo', 'ls-files', '-z'], capture_output=True, text=True).stdout.split('\0')
+        for f in files:
+            if not f:
+                continue
+            os.makedirs(os.path.dirname(os.path.join(repo, f)) or repo, exist_ok=True)
+            shutil.copy2(os.path.join('/repo', f), os.path.join(repo, f))
+        r = subprocess.run(['git', 'apply', '--unsafe-paths', '--directory=' + repo, os.path.join(d, 'patch.diff')],
+                           capture_output=True, text=True, cwd=base)
+        if r.returncode != 0:
+            r = subprocess.run(['patch', '-p1', '-s', '-i', os.path.join(d, 'patch.diff')], capture_output=True, text=True, cwd=repo)
+        if r.returncode != 0:
+            return name, {'error': 'patch does not apply', 'detail': (r.stderr or r.stdout)[-300:]}
+        if os.path.isdir(os.path.join(ROOT, '.build')):
+            # warm cargo cache: dependencies are identical, only proto-vulcan and pv-replay are rebuilt
+            shutil.copytree(os.path.join(ROOT, '.build'), repo + '.build', symlinks=True)
+        env = dict(os.environ, VERIF_NO_EVIDENCE='1', VERIF_REPO=repo, VERIF_WORK=os.path.join(base, 'work'))
+        return name, run_checks(name, meta, env)
     finally:
-        subprocess.run(['git', '-C', '/repo', 'checkout', '--', '.'])
+        shutil.rmtree(base, ignore_errors=True)
+
+
+dirs = [d for d in sorted(glob.glob(os.path.join(ROOT, 'seeded', '*_*')))
+        if os.path.isdir(d) and (not flt or any(f in os.path.basename(d) for f in flt))]
+
+
+def report(name, res):
+    results[name] = res
+    if 'error' in res:
+        print('%-10s %s %s' % (name, res['error'], res.get('detail', '')))
+        return
+    det = [p for p, v in res['checks'].items() if v['exit'] == 1]
+    und = [p for p, v in res['checks'].items() if v['exit'] == 2]
+    print('%-10s %-4s detected_by=%s%s %s' % (name, res['property'], det or '-', (' undecided=%s' % und) if und else '',
+                                            '' if res['claimed'] else '(property not claimed)'))
+    sys.stdout.flush()
+
+
+if inrepo:
+    assert subprocess.run(['git', '-C', '/repo', 'status', '--porcelain', '--untracked-files=no'], capture_output=True, text=True).stdout.strip() == '', '/repo is dirty'
+    for d in dirs:
+        name = os.path.basename(d)
+        meta = json.load(open(os.path.join(d, 'meta.json')))
+        r = subprocess.run(['git', '-C', '/repo', 'apply', os.path.join(d, 'patch.diff')], capture_output=True, text=True)
+        if r.returncode != 0:
+            report(name, {'error': 'patch does not apply', 'detail': r.stderr.strip()[:200]})
+            continue
+        try:
+            report(name, run_checks(name, meta, dict(os.environ, VERIF_NO_EVIDENCE='1')))
+        finally:
+            subprocess.run(['git', '-C', '/repo', 'checkout', '--', '.'])
+else:
+    with cf.ThreadPoolExecutor(jobs) as ex:
+        for name, res in ex.map(one_scratch, dirs):
+            report(name, res)
 json.dump(results, open(resf, 'w'), indent=1)
+miss = [n for n in sorted(results) if 'checks' in results[n] and results[n]['claimed'] and not any(v['exit'] == 1 for v in results[n]['checks'].values())]
+print('seeds: %d, missed (claimed property, no check alarms): %s' % (len(results), miss))
